@@ -531,3 +531,54 @@ class MakeWorld:
             for k in w.used:
                 w.used[k] = 0
         return w
+
+
+_NT = re.compile(rb"#NT1#")
+_OC = re.compile(rb"#OC[0-9a-f]{10}#")
+
+
+def run_world(run, name, overrides, max_states, max_seconds, dname=None):
+    mk = MakeWorld(name, overrides)
+    dname = dname or name
+    bounds = {k: v for k, v in mk.params.items() if k != "prefix"}
+    bounds["nodes"] = mk.params.get("n", 3)
+    bounds["start"] = "scripted prefix: " + repr(mk.params["prefix"]) if "prefix" in mk.params else "all followers, term 0"
+    d = run.driver("bfs-" + dname, bounds)
+    stats = {"nt": 0, "oc": set()}
+
+    def on_state(_key, blob):
+        if _NT.search(blob):
+            stats["nt"] += 1
+        m = _OC.search(blob)
+        if m:
+            stats["oc"].add(m.group(0))
+
+    res = _bfs.bfs(mk, max_states=max_states, max_seconds=max_seconds, pool=pool(), on_state=on_state, chunk=48)
+    d.states = res.states
+    d.transitions = res.transitions
+    d.executions = res.states  # one shortest real trace per distinct state
+    d.nontrivial = stats["nt"]
+    d.outcomes = len(stats["oc"])
+    d.exhaustive = res.exhaustive
+    d.caps = list(res.caps)
+    d.wall_s = res.wall_s
+    d.extra = {"depth_completed": res.depth, "level_sizes": res.level_sizes, "terminal_states": res.terminal_states,
+               "prefix_labels": len(mk.prefix_labels)}
+    d.samples = [[_short(lab) for lab in tr] for tr in res.sample_traces[-2:]]
+    for fp, desc, trace in res.violations:
+        # re-run from the replay data before reporting (same schedule, same verdict)
+        w, again = _bfs.replay(MakeWorld(name, overrides), trace, verbose=False)
+        if not any(f == fp for f, _d in again):
+            raise AssertionError(f"violation {fp} did not reproduce on replay of its own trace")
+        run.violation(fp, desc + f"  [world {dname}, {len(trace)} moves after the prefix]",
+                      {"driver": "bfs", "world": name, "overrides": overrides or {}, "labels": trace,
+                       "readable": [_short(lab) for lab in trace]})
+    return res
+
+
+def _short(lab):
+    if lab[0] in ("deliver", "drop"):
+        md = dict(lab[2])
+        rest = {k: v for k, v in md.items() if k not in ("source", "destination", "candidate_id", "from", "leader_id")}
+        return f"{lab[0]} {lab[1][4:]} {md.get('source')}->{md.get('destination')} {rest}"
+    return " ".join(str(x) for x in lab)
